@@ -539,13 +539,15 @@ def _reuse_request(run, op, kwargs):
         run.req_objects[op["id"]] = kwargs["request"]
 
 
-def _read_attrs(run, op, pager):
+def _read_attrs(run, op, pager, page=None):
+    """page=n: read while page n (1-based) is the most recent one, i.e. BETWEEN two page fetches."""
+    extra = {"page": page} if page is not None else {}
     for name in op.get("read_attrs") or []:
         try:
             v = getattr(pager, name)
-            run.sim.ev("attr", op=op["id"], name=name, value=norm_item(v) if not hasattr(v, "__len__") or isinstance(v, (str, bytes)) else len(v))
+            run.sim.ev("attr", op=op["id"], name=name, value=norm_item(v) if not hasattr(v, "__len__") or isinstance(v, (str, bytes)) else len(v), **extra)
         except Exception as e:  # noqa
-            run.sim.ev("attr", op=op["id"], name=name, error=type(e).__name__)
+            run.sim.ev("attr", op=op["id"], name=name, error=type(e).__name__, **extra)
 
 
 def _sync_paged(run, client, op):
@@ -567,6 +569,8 @@ def _sync_paged(run, client, op):
                 b, cls = to_bytes(page)
                 run.sim.ev("page", op=op["id"], value=b.hex(), cls=cls)
                 n += 1
+                if op.get("read_attrs_each_page"):
+                    _read_attrs(run, op, pager, page=n)
                 if nested and nested["after"] == n:
                     _run_nested_sync(run, client, nested["op"])
                 if op.get("stop_after") == n:
@@ -632,6 +636,8 @@ async def _async_paged(run, client, op):
                 b, cls = to_bytes(page)
                 run.sim.ev("page", op=op["id"], value=b.hex(), cls=cls)
                 n += 1
+                if op.get("read_attrs_each_page"):
+                    _read_attrs(run, op, pager, page=n)
                 if nested and nested["after"] == n:
                     await _run_nested_async(run, client, nested["op"])
                 if op.get("stop_after") == n:
